@@ -51,7 +51,7 @@ type keeperEnv struct {
 	index    map[string]int // oracle address -> index
 }
 
-var powerProfiles = [][]int64{{10, 10, 10, 10}, {40, 30, 20, 10}, {34, 33, 32, 1}, {66, 20, 10, 4}, {25, 25, 25, 25, 25}, {50, 16, 16, 16, 2}}
+var powerProfiles = [][]int64{{10, 10, 10, 10}, {40, 30, 20, 10}, {34, 33, 32, 10}, {66, 20, 10, 10}, {25, 25, 25, 25, 25}, {50, 16, 16, 16, 10}}
 
 func newKeeperEnv(t *testing.T, r *run, profile []int64) *keeperEnv {
 	n := len(profile)
@@ -267,8 +267,70 @@ func (e *keeperEnv) replay(k *kind, what string, claims []claim, order []int) {
 				r.violate(fmt.Sprintf("real keeper: state written by the handler differs from the executed claim in %s: %s", k.name, what), rp)
 			}
 		}
-		out.Emit(line, fmt.Sprintf("%s last=%d exec=%s atts=%s", kindR, lastObs, execHash, e.attTable(ctx, nonce)))
+		out.Emit(line, fmt.Sprintf("%s last=%d exec=%s pend=%s atts=%s", kindR, lastObs, execHash, e.pendOf(ctx, nonce), e.attTable(ctx, nonce)))
 	}
+	// deferred execution: ExecuteClaim runs the stored copy (whether the real handler succeeds is an input of the model)
+	ran := 0
+	for round := 0; round < 2; round++ {
+		stored, had := e.k.GetPendingExecuteClaim(ctx, nonce)
+		fails := false
+		if had {
+			cctx, _ := ctx.CacheContext()
+			fails = hx.Try(func() error { return e.k.ExecuteClaim(cctx, nonce) }) != "ok"
+		} else if round == 1 {
+			break
+		}
+		cctx, commit := ctx.CacheContext()
+		res := hx.Try(func() error { return e.k.ExecuteClaim(cctx, nonce) })
+		kindR := "err"
+		switch {
+		case !had:
+			kindR = "none"
+		case res == "ok":
+			kindR = "ok"
+			commit()
+			ran++
+			// (4) the claim that was run from the store is the executed (voted) one: checked against every vote cast for it
+			for i, v := range votes {
+				if hashOf(v) == hashOf(stored) && k.effect(v) != k.effect(stored) {
+					r.violate(fmt.Sprintf("real keeper: claim run by ExecuteClaim differs from the vote of oracle %d tallied for it in %s: %s", i, k.name, what), replay)
+				}
+			}
+		}
+		out.Count("keeper:execute-claim:" + kindR)
+		out.Emit(fmt.Sprintf("run %d %s", nonce, b01(fails)), fmt.Sprintf("%s pend=%s ran=%d", kindR, e.pendOf(ctx, nonce), ran))
+	}
+}
+
+func (e *keeperEnv) pendOf(ctx sdk.Context, nonce uint64) string {
+	if c, ok := e.k.GetPendingExecuteClaim(ctx, nonce); ok {
+		return hex.EncodeToString(c.ClaimHash())[:16]
+	}
+	return "-"
+}
+
+// renameMembers maps the distinct member addresses of two oracle-set claims, in order of first appearance, onto the
+// registered external addresses
+func (e *keeperEnv) renameMembers(k *kind, a, b claim) (claim, claim, bool) {
+	ma, ok1 := k.clone(a).(*ct.MsgOracleSetUpdatedClaim)
+	mb, ok2 := k.clone(b).(*ct.MsgOracleSetUpdatedClaim)
+	if !ok1 || !ok2 {
+		return nil, nil, false
+	}
+	names := map[string]string{}
+	for _, ms := range [][]ct.BridgeValidator{ma.Members, mb.Members} {
+		for i := range ms {
+			if _, ok := names[ms[i].ExternalAddress]; !ok {
+				names[ms[i].ExternalAddress] = e.exts[len(names)%len(e.exts)]
+			}
+			ms[i].ExternalAddress = names[ms[i].ExternalAddress]
+		}
+	}
+	ma.ChainName, mb.ChainName = keeperChain, keeperChain
+	if verdict(ma) != "ok" || verdict(mb) != "ok" || hashOf(ma) != hashOf(mb) || k.effect(ma) == k.effect(mb) {
+		return nil, nil, false
+	}
+	return ma, mb, true
 }
 
 // orders: vote orders for n oracles with the deviators at every position
@@ -308,10 +370,16 @@ func keeperRun(t *testing.T, r *run, g *gen, ks map[string]*kind) {
 		disagree(k, what, m, d, []int{order[0], order[n-1]}, orders(g, n))
 	}
 
-	// 1. every collision the pure search found (none on a tree where the property holds)
+	// 1. every collision the pure search found (none on a tree where the property holds); when the claims name oracle-set
+	// members, also with the member addresses consistently renamed to registered ones (claimLogicCheck), provided the
+	// renamed pair still collides on the real ClaimHash
 	for _, col := range r.found {
 		r.out.Count("keeper:replayed-collision")
 		allPositions(col.k, col.what, col.a, col.b)
+		if a2, b2, ok := e.renameMembers(col.k, col.a, col.b); ok {
+			r.out.Count("keeper:replayed-collision:renamed")
+			allPositions(col.k, col.what+", members renamed to registered oracles", a2, b2)
+		}
 	}
 
 	// 2. the recorded witnesses of the pinned commit
@@ -398,7 +466,13 @@ func keeperRun(t *testing.T, r *run, g *gen, ks map[string]*kind) {
 // pickPerturbed: a random valid perturbation variant of base with a different effect (nil if the draw is not valid)
 func pickPerturbed(g *gen, k *kind, base claim) (claim, string) {
 	v := k.clone(base)
-	switch g.rng.Intn(3) {
+	switch g.rng.Intn(4) {
+	case 3:
+		if lv := listVariants(k, base); len(lv) > 0 {
+			p := hx.Pick(g.rng, lv)
+			return p.val, p.how
+		}
+		return nil, ""
 	case 0:
 		refs := strRefs(v)
 		if len(refs) == 0 {
